@@ -137,7 +137,29 @@ fn gen_wide(rng: &mut Rng) -> Vec<Op> {
 
 fn order_case(rng: &mut Rng, nvariants: usize) -> Case {
     let wide = rng.chance(1, 8);
-    let (ops, stream) = if wide { (gen_wide(rng), "wide") } else { gen_history(rng) };
+    // one case in eight (always with the analysis attached): a parent that has BOTH operands of a union as children, next to
+    // parents of one side — the parent is queued for an analysis refresh and for re-canonicalisation at once, whichever operand dies
+    let both = !wide && rng.chance(1, 7);
+    let (ops, stream) = if wide {
+        (gen_wide(rng), "wide")
+    } else if both {
+        let sym = |s: &str| ATerm { v: 16, fields: vec![CField::Lit(s.into())], children: vec![] };
+        let slotted = rng.chance(1, 2);
+        let small = if slotted { leaf(10, &[4]) } else { sym("b") };
+        let big = if slotted { un(13, un(13, leaf(2, &[4]))) } else { un(13, un(13, sym("a"))) };
+        let op = if rng.chance(1, 2) { 14 } else { 4 };
+        let mut ops = vec![Op::Add(big.clone()), Op::Add(small.clone()), Op::Add(bin(op, big.clone(), small.clone())), Op::Add(bin(op, big.clone(), big.clone()))];
+        if rng.chance(1, 2) {
+            ops.push(Op::Add(un(13, bin(op, big.clone(), small.clone()))));
+        }
+        if rng.chance(1, 2) {
+            ops.push(Op::Add(bin(op, small.clone(), small.clone())));
+        }
+        ops.push(Op::Union(0, 1));
+        (ops, "bothsides")
+    } else {
+        gen_history(rng)
+    };
     let (terms, unions) = split_ops(&ops);
     let n = terms.len();
     // variants: (ops, orig_index)
@@ -191,7 +213,7 @@ fn order_case(rng: &mut Rng, nvariants: usize) -> Case {
     let touching = unions.len() >= 3
         && unions.iter().enumerate().any(|(a, u)| unions.iter().skip(a + 1).any(|w| u.0 == w.0 || u.0 == w.1 || u.1 == w.0 || u.1 == w.1));
     let vs = variants.clone();
-    let with_ana = rng.chance(1, 4);
+    let with_ana = both || rng.chance(1, 4);
     let r = in_fresh_thread(move || {
         intern_names();
         vs.iter().map(|(ops, idx)| run_final(ops, idx, None, 0, with_ana)).collect::<Vec<_>>()
